@@ -146,10 +146,14 @@ var vpNamed = map[string]string{
 }
 
 var vpListener = -1
+var vpPairMu sync.Mutex
 var vpListenAddr syscall.Sockaddr
 
 // vpTCPPair: a connected loopback TCP pair (a = the connecting side)
 func vpTCPPair() (a, b int, err error) {
+	// one at a time: in the real-epoll runs the harness and the poller goroutine (observing twins) both get here
+	vpPairMu.Lock()
+	defer vpPairMu.Unlock()
 	if vpListener < 0 {
 		l, err := syscall.Socket(syscall.AF_INET, syscall.SOCK_STREAM|syscall.SOCK_CLOEXEC, 0)
 		if err != nil {
@@ -169,13 +173,40 @@ func vpTCPPair() (a, b int, err error) {
 	if a, err = syscall.Socket(syscall.AF_INET, syscall.SOCK_STREAM|syscall.SOCK_CLOEXEC, 0); err != nil {
 		return -1, -1, err
 	}
-	if err = syscall.Connect(a, vpListenAddr); err != nil {
+	// blocking connect / accept, restarted when the runtime's preemption signal interrupts them
+	for {
+		err = syscall.Connect(a, vpListenAddr)
+		if err == syscall.EINTR || err == syscall.EALREADY || err == syscall.EINPROGRESS {
+			time.Sleep(10 * time.Microsecond)
+			continue
+		}
+		if err == syscall.EISCONN {
+			err = nil
+		}
+		break
+	}
+	if err != nil {
 		syscall.Close(a)
 		return -1, -1, err
 	}
-	if b, _, err = syscall.Accept4(vpListener, syscall.SOCK_CLOEXEC); err != nil {
-		syscall.Close(a)
-		return -1, -1, err
+	an, _ := syscall.Getsockname(a)
+	for {
+		b, _, err = syscall.Accept4(vpListener, syscall.SOCK_CLOEXEC)
+		if err == syscall.EINTR {
+			continue
+		}
+		if err != nil {
+			syscall.Close(a)
+			return -1, -1, err
+		}
+		// make sure it is the other end of a (a stale connection in the backlog would cross the pairs)
+		bn, _ := syscall.Getpeername(b)
+		a4, ok1 := an.(*syscall.SockaddrInet4)
+		b4, ok2 := bn.(*syscall.SockaddrInet4)
+		if ok1 && ok2 && a4.Port == b4.Port {
+			break
+		}
+		syscall.Close(b)
 	}
 	for _, fd := range []int{a, b} {
 		syscall.SetNonblock(fd, true)
@@ -186,8 +217,28 @@ func vpTCPPair() (a, b int, err error) {
 
 // vpSettle waits (briefly) until what the peer did has reached descriptor fd
 func vpSettle(fd int, want int16) {
-	pfd := []vpPollFd{{fd: int32(fd), events: want}}
-	syscall.Syscall(syscall.SYS_POLL, uintptr(unsafe.Pointer(&pfd[0])), 1, 200)
+	// the Go runtime's preemption signals interrupt poll(2): retry until it reports something or 500 ms passed
+	dl := time.Now().Add(500 * time.Millisecond)
+	for time.Now().Before(dl) {
+		pfd := []vpPollFd{{fd: int32(fd), events: want}}
+		r, _, e := syscall.Syscall(syscall.SYS_POLL, uintptr(unsafe.Pointer(&pfd[0])), 1, 100)
+		if e == 0 && r > 0 {
+			return
+		}
+	}
+}
+
+// vpSettleBytes waits until at least want bytes are queued for reading on fd (FIONREAD)
+func vpSettleBytes(fd, want int) {
+	dl := time.Now().Add(500 * time.Millisecond)
+	for {
+		var n int32
+		syscall.Syscall(syscall.SYS_IOCTL, uintptr(fd), 0x541B, uintptr(unsafe.Pointer(&n)))
+		if int(n) >= want || !time.Now().Before(dl) {
+			return
+		}
+		time.Sleep(20 * time.Microsecond)
+	}
 }
 
 type vpPollFd struct {
@@ -228,7 +279,7 @@ func vpPrepare(ds string, capv int) (*vpDesc, error) {
 		}
 		d.a, d.b = fds[0], fds[1]
 	}
-	woff := 0
+	woff, pend := 0, 0
 	for _, act := range strings.Split(ds[4:], ".") {
 		if act == "" {
 			continue
@@ -246,8 +297,9 @@ func vpPrepare(ds string, capv int) (*vpDesc, error) {
 				return fail(err)
 			}
 			woff += n
+			pend += n
 			if tcp {
-				vpSettle(d.a, 0x1)
+				vpSettleBytes(d.a, pend)
 			}
 		case 'o':
 			if err := vpWriteAll(d.a, make([]byte, n)); err != nil {
@@ -255,7 +307,7 @@ func vpPrepare(ds string, capv int) (*vpDesc, error) {
 			}
 			d.prefill += n
 			if tcp {
-				vpSettle(d.b, 0x1)
+				vpSettleBytes(d.b, d.prefill)
 			}
 		case 'c', 'l':
 			if act[0] == 'l' {
@@ -285,6 +337,7 @@ func vpPrepare(ds string, capv int) (*vpDesc, error) {
 				}
 				got += k
 			}
+			pend -= n
 		case 'f':
 			syscall.SetsockoptInt(d.a, syscall.SOL_SOCKET, syscall.SO_SNDBUF, 4096)
 			chunk := make([]byte, 1024)
@@ -1028,10 +1081,10 @@ func VerifPollHMain(args []string) int {
 	go func() {
 		last := int64(-1)
 		for {
-			time.Sleep(20 * time.Second)
+			time.Sleep(90 * time.Second)
 			cur := atomic.LoadInt64(&progress)
 			if cur == last {
-				fmt.Fprintln(os.Stderr, "pollh: no progress for 20s, giving up")
+				fmt.Fprintln(os.Stderr, "pollh: no progress for 90s, giving up")
 				ow.Flush()
 				iw.Flush()
 				os.Exit(3)
@@ -1066,6 +1119,7 @@ func VerifPollHMain(args []string) int {
 			return 2
 		}
 		defer f.Close()
+		fds0++ // the replay file itself
 		sc := bufio.NewScanner(f)
 		sc.Buffer(make([]byte, 1<<22), 1<<22)
 		for sc.Scan() {
